@@ -13,7 +13,6 @@ import (
 	"verif/sim/core"
 )
 
-
 func usage() {
 	fmt.Fprintln(os.Stderr, "usage: check <ID> quick|thorough | check replay <file> | check selftest")
 	os.Exit(2)
